@@ -38,7 +38,7 @@ def handlers : List (String → List String → Option String) := [
   VmStack.handle?,
   Cost.handle?,
   Tl.handle?,
-  Hashmap.handle?
+  Hashmap.handle?,
   Boc.handle?
 ]
 
